@@ -11,6 +11,28 @@ CFG = {
     'names': {'_Znt11pred_result': 'pred_not_op', '_Zaa11pred_resultS_': 'pred_and_op', '_Zoo11pred_resultS_': 'pred_or_op'},
     'extern': {'abort': 'verif_abort'},
 }
+SPO = r'(const )?std::(shared_ptr<op>|__shared_ptr<op.*>|__shared_ptr_access<op.*>)'
+UPP = r'(const )?std::(unique_ptr<pred(, std::default_delete<pred>)?>|shared_ptr<pred>|__shared_ptr<pred.*>|__shared_ptr_access<pred.*>)'
+UPS = r'std::unique_ptr<stack(, std::default_delete<stack>)?>'
+OP_CFG = {
+    'names': {'pred_not::result': 'pred_not_result', 'pred_and::result': 'pred_and_result', 'pred_or::result': 'pred_or_result',
+              'op_assert::next': 'op_assert_next', '_Znt11pred_result': 'pred_not_op', '_Zaa11pred_resultS_': 'pred_and_op',
+              '_Zoo11pred_resultS_': 'pred_or_op'},
+    'types': {SPO: 'op *', UPP: 'pred *', UPS: 'stack *', r'std::nullptr_t': 'void *'},
+    'opaque_records': ['scon', 'stack'],
+    'types_prelude': 'typedef struct scon scon; typedef struct stack stack;\n',
+    'bodies_prelude': '#include "op_model.h"\n',
+    'virtual': {'pred::result': 'pred_result_model', 'op::next': 'op_next_model'},
+    'extern': {r'std::(__shared_ptr_access<(op|pred).*>|unique_ptr<pred.*>)::operator->': {'c': 'PTR_ID', 'by_value': True},
+               r'std::(__shared_ptr_access<(op|pred).*>|unique_ptr<pred.*>)::operator\*': {'c': 'PTR_ID', 'by_value': True},
+               UPS + r'::operator\*': {'c': 'PTR_ID', 'by_value': True}, UPS + r'::operator bool': {'c': 'PTR_BOOL', 'by_value': True},
+               r'abort': 'verif_abort'},
+    'loop_contracts': {'op_assert_next': {1: '''__CPROVER_assigns(g_i)
+__CPROVER_loop_invariant(g_i <= g_n && g_i >= __CPROVER_loop_entry(g_i))
+__CPROVER_loop_invariant(g_k < __CPROVER_loop_entry(g_i) || g_k >= g_i || g_verdict[g_k] != 1)
+__CPROVER_decreases(g_n - g_i)'''}},
+}
+OP_ROOTS = ['pred_not::result', 'pred_and::result', 'pred_or::result', 'op_assert::next']
 ROOTS = ['_Znt11pred_result', '_Zaa11pred_resultS_', '_Zoo11pred_resultS_']
 INPUTS = ['in_a', 'in_b', 'a']
 
@@ -25,6 +47,13 @@ def jobs(tier):
     add('and', 'h_and', 'pred_and_op')
     add('or', 'h_or', 'pred_or_op')
     add('laws', 'h_laws', None, replace=['pred_not_op'], kind='lemma', note='client lemmas proved from the contract of operator! alone')
+    osrc = [os.path.join(HERE, 'op_harness.c'), os.path.join(OUT, 'op_bodies.c')]
+    J.append(Job('assert_next', osrc, 'h_assert_next', enforce='op_assert_next', loop_contracts=True, includes=inc, timeout=600,
+                 inputs=['g_n', 'g_i', 'g_k'], note='loop contract with a ghost index: unbounded in the number of upstream stacks (<= 4096)'))
+    for nm in ('not', 'and', 'or'):
+        J.append(Job('pred_%s_result' % nm, osrc, 'h_pred_' + nm, enforce='pred_%s_result' % nm,
+                     includes=inc, timeout=300, inputs=['g_va', 'g_vb'],
+                     note='operator!/&&/|| inlined here (their own contracts are the jobs not/and/or)'))
     add('control', 'h_control', None, defines=['VERIF_CONTROL'], kind='control', expect='fail')
     return J
 
@@ -33,7 +62,8 @@ LEVEL = 'proof'
 TRUSTED = ['tools/cxx2c.py lowering']
 ASSUMPTIONS = [
     'type invariant: a pred_result holds one of its three enumerators',
-    'SLICE: that ?(E)/!(E)/infix operators leave the incoming stack unchanged (op_assert, pred_subx_any, op_subx in op.cc) is NOT covered',
+    'op_assert::next / pred_not,and,or::result: the virtual calls op::next and pred::result are modelled (props/c04/op_model.h); the model predicate does not modify the stack it is given -- whether real predicates (pred_subx_any, word predicates) do is NOT covered; destruction of rejected stacks (unique_ptr) not modelled',
+    'SLICE: sub-expression contexts (op_subx, pred_subx_any), let and capture are NOT covered',
 ]
 EXPLANATION = 'Only the three-valued operator table; see DESIGN.md section 4 C04.'
 
@@ -44,6 +74,8 @@ def spec_files():
 
 def prepare(tier):
     lw = vlib.extract('pred', 'libzwerg/pred_result.cc', CFG, ROOTS, OUT)
+    ow = vlib.extract('op', 'libzwerg/op.cc', OP_CFG, OP_ROOTS, OUT)
+    lw.report['functions'] += ow.report['functions']
     return {'unit': 'libzwerg/pred_result.hh (via pred_result.cc)', 'functions': lw.report['functions']}
 
 
